@@ -281,6 +281,11 @@ func c17Run(r *vkit.Run) {
 		`{} | line_format "{{ repeat 1000000 .a }}"`, `{} | line_format "{{ trunc 9223372036854775807 .a }}"`, `{} | line_format "{{ substr 0 9223372036854775807 .a }}"`, `{} | line_format "{{ alignLeft 9223372036854775807 .a }}"`, `{} | line_format "{{ add 9223372036854775807 1 }}"`,
 	} {
 		visit(q)
+		if strings.HasPrefix(q, "{}") {
+			// the same pipeline inside a metric query: failures while the pipeline is built take another path there
+			visit("count_over_time(" + q + " [10s])")
+			visit("sum(rate(" + q + " [10s])) / sum(count_over_time({}[10s]))")
+		}
 	}
 	// every construct that takes a string parameter x a small alphabet of degenerate strings (empty, blank, a lone
 	// quote / backquote / backslash / NUL, unbalanced brackets, template and pattern openers, a group reference)
@@ -293,7 +298,11 @@ func c17Run(r *vkit.Run) {
 	}
 	for _, f := range strForms {
 		for _, p := range strParams {
-			visit(fmt.Sprintf(f, strconv.Quote(p)))
+			q := fmt.Sprintf(f, strconv.Quote(p))
+			visit(q)
+			if strings.HasPrefix(q, "{} |") {
+				visit("count_over_time(" + q + " [10s])")
+			}
 		}
 	}
 	// the 3000-deep documents: every JSON-reading stage, under the watchdog
